@@ -4,6 +4,7 @@ about PsV.gridEval / PsV.sliceMultiply / PsV.bsplineBasis (lean/PsV/Model/Glam.l
 Tie (harness/c17_harness.cpp, real code in-process, shipped-flags and sanitizer builds):
   B  bsplinebasis()  vs PsV.bsplineBasis at IEEE double: bit for bit;
   S  slicemultiply() vs PsV.sliceMultiply on small integers (exact in double): ranges, listed index set and every value exact;
+  T  the same on sparse tensors with large index ranges (flattened sections of 2^16..2^22 columns: index arithmetic beyond 16 bits);
   G  splinetable::grideval and the C wrapper splinetable_grideval vs PsV.gridEval at Rat: ranges exact, listed index set
      exact, every value within K_d*2^-53*Sum|coef|Prod|B| of the exact value.
 Oracle (independent of the model): PsV.gridSpec = Sum_idx coef*Prod_d B_d (exact, Rat) on the implementation's output: value
@@ -64,7 +65,7 @@ def run(ctx):
     evals = 0; nontriv = set(); dist = {}
     worst_d = Fraction(0); worst_f = Fraction(0)
     counts = {"grid_points": 0, "inside_points_compared_pointwise": 0, "convention_differs_points": 0, "unlisted_points": 0,
-              "B_lines": 0, "S_lines": 0, "G_lines": 0, "pointwise_rejected_outside": 0, "idx_safe_cases": 0}
+              "B_lines": 0, "S_lines": 0, "T_lines": 0, "G_lines": 0, "pointwise_rejected_outside": 0, "idx_safe_cases": 0}
     for mode in modes:
         exe = ctx.compile("c17_" + mode, ["c17_harness.cpp"], mode=mode, defines=["PHOTOSPLINE_INCLUDES_SPGLAM"],
                           repo_c=psvlib.FITTER_C, libs=psvlib.FITTER_LIBS)
@@ -111,8 +112,8 @@ def run(ctx):
                         broke("bsplinebasis bits differ from PsV.bsplineBasis at F64")
                     else: nontriv.add(c)
                     continue
-                if kind == "S":
-                    counts["S_lines"] += 1
+                if kind in ("S", "T"):
+                    counts[kind + "_lines"] += 1
                     if i == "fail" or m == "fail":
                         if i != m: broke("slicemultiply dimension check differs")
                         continue
@@ -126,7 +127,10 @@ def run(ctx):
                     if set(ent) != parse_listed(mp[1], len(ranges)): broke("slicemultiply listed index set differs")
                     vals = [frac(z) for z in mp[2]]
                     ok = True
-                    for idx, v in zip(all_idx(ranges), vals):
+                    # S: dense comparison over the whole result range; T (large ranges): at every index either side lists (unlisted = 0 on both)
+                    where = all_idx(ranges) if kind == "S" else sorted(parse_listed(mp[1], len(ranges)))
+                    if len(where) != len(vals): broke("line shape"); continue
+                    for idx, v in zip(where, vals):
                         iv = sum((Fraction(dbl(b)) for b in ent.get(idx, [])), Fraction(0))
                         if iv != v: ok = False
                     if not ok: broke("slicemultiply values differ from PsV.sliceMultiply (exact integers)")
